@@ -383,8 +383,10 @@ def check_property(pid, tier, seed, replay=None):
     tags, samples = {}, []
     per_domain = {}
 
-    def absorb(name, cfg, agg):
+    def absorb(name, cfg, agg, faults_only=False):
         nonlocal cases, nontrivial
+        if faults_only:
+            agg["diff"] = []
         for d in agg["diff"]:
             d["cfg"] = cfg
             d["domain"] = name
@@ -417,7 +419,7 @@ def check_property(pid, tier, seed, replay=None):
                         r = replay_cases(exes[c], c, mine, keep=d.get("keep", ""))
                         s = r["summary"] or {"cases": 0, "nontrivial": 0, "tags": {}, "samples": []}
                         r.update(cases=s["cases"], nontrivial=s["nontrivial"], tags=s["tags"], samples=s["samples"])
-                        absorb(d["name"], c, r)
+                        absorb(d["name"], c, r, d.get("faults_only", False))
     else:
         for d in P["domains"]:
             for c in d["cfgs"]:
@@ -431,8 +433,8 @@ def check_property(pid, tier, seed, replay=None):
                         r = replay_cases(exes[c], c, lines, keep=d.get("keep", ""))
                         s = r["summary"] or {"cases": 0, "nontrivial": 0, "tags": {}, "samples": []}
                         r.update(cases=s["cases"], nontrivial=s["nontrivial"], tags=s["tags"], samples=s["samples"])
-                        absorb(d["name"] + ".corpus", c, r)
-                absorb(d["name"], c, run_domain(exes[c], c, d["name"], tier, seed, keep=d.get("keep", "")))
+                        absorb(d["name"] + ".corpus", c, r, d.get("faults_only", False))
+                absorb(d["name"], c, run_domain(exes[c], c, d["name"], tier, seed, keep=d.get("keep", "")), d.get("faults_only", False))
         # widened search: something no longer checks but no concrete failing input yet
         new_rejects = [r for r in rejects if not set(relevant(r)) <= known_clauses]
         if (proof_problems or diffs) and not new_rejects and not faults and tier != "thorough":
@@ -440,7 +442,7 @@ def check_property(pid, tier, seed, replay=None):
             for d in P["domains"]:
                 for c in d["cfgs"]:
                     if c in exes:
-                        absorb(d["name"] + ".widened", c, run_domain(exes[c], c, d["name"], "widened", seed + 1, keep=d.get("keep", "")))
+                        absorb(d["name"] + ".widened", c, run_domain(exes[c], c, d["name"], "widened", seed + 1, keep=d.get("keep", "")), d.get("faults_only", False))
 
     # ---- decision
     new_rejects = [r for r in rejects if not set(relevant(r)) <= known_clauses]
